@@ -22,8 +22,8 @@ func NewRng(seed uint64, salt string) *Rng {
 }
 
 func (r *Rng) Chance(p float64) bool { return r.Float64() < p }
-func (r *Rng) Pick(n int) int         { return r.IntN(n) }
-func PickOf[T any](r *Rng, xs []T) T  { return xs[r.IntN(len(xs))] }
+func (r *Rng) Pick(n int) int        { return r.IntN(n) }
+func PickOf[T any](r *Rng, xs []T) T { return xs[r.IntN(len(xs))] }
 
 // Weighted picks an index by weight.
 func (r *Rng) Weighted(ws []float64) int {
@@ -63,9 +63,13 @@ type Opts struct {
 	NoRefs     bool
 	NoCompose  bool // allOf/anyOf
 	NoNestArr  bool
-	IntLimits  bool // use 8/16/32/64-bit limits as integer bounds
-	Descs      bool // attach descriptions/titles
-	YAMLSafe   bool // avoid values that are hazardous under the YAML path
+	IntLimits  bool               // use 8/16/32/64-bit limits as integer bounds
+	Descs      bool               // attach descriptions/titles
+	YAMLSafe   bool               // avoid values that are hazardous under the YAML path
+	W          map[string]float64 // weight overrides by subject kind
+	PNullable  float64            // probability of making a typed subject nullable (default 0.15)
+	PDefault   float64            // probability of a default on an optional property (default 0.25)
+	PAddProps  float64            // probability of additionalProperties on an object (default 0.2)
 }
 
 // Gen is a random schema generator.
@@ -106,21 +110,15 @@ func (g *Gen) Root() *Schema {
 // Subject makes a random schema of any kind for a property/item position.
 func (g *Gen) Subject(depth int) *Schema {
 	r := g.R
-	w := []float64{
-		3,   // string
-		3,   // integer
-		2.5, // number
-		1,   // boolean
-		2,   // array
-		2,   // object
-		2,   // enum
-		0.6, // untyped
-		1.2, // ref to def
-		0.8, // compose
-		0.5, // map object
+	names := []string{"string", "integer", "number", "boolean", "array", "object", "enum", "untyped", "ref", "compose", "map"}
+	w := []float64{3, 3, 2.5, 1, 2, 2, 2, 0.6, 1.2, 0.8, 0.5}
+	for i, n := range names {
+		if v, ok := g.O.W[n]; ok {
+			w[i] = v
+		}
 	}
 	if depth >= g.O.MaxDepth {
-		w[4], w[5], w[8], w[9], w[10] = 0, 0, 0.3, 0, 0
+		w[4], w[5], w[8], w[9], w[10] = 0, 0, w[8]*0.25, 0, 0
 	}
 	if g.O.NoEnums {
 		w[6] = 0
@@ -156,7 +154,11 @@ func (g *Gen) Subject(depth int) *Schema {
 	case 10:
 		s = g.MapObject(depth)
 	}
-	if !g.O.NoNullable && len(s.Types) == 1 && s.Types[0] != "null" && !s.HasEnum && r.Chance(0.15) {
+	pn := g.O.PNullable
+	if pn == 0 {
+		pn = 0.15
+	}
+	if !g.O.NoNullable && len(s.Types) == 1 && s.Types[0] != "null" && !s.HasEnum && r.Chance(pn) {
 		if r.Chance(0.5) {
 			s.Types = []string{s.Types[0], "null"}
 		} else {
@@ -424,11 +426,11 @@ func (g *Gen) Object(depth int, root bool) *Schema {
 		s.Props = append(s.Props, Prop{name, p})
 		if r.Chance(0.5) {
 			s.Required = append(s.Required, name)
-		} else if !g.O.NoDefaults && r.Chance(0.25) {
+		} else if !g.O.NoDefaults && r.Chance(g.pDefault()) {
 			g.addDefault(p)
 		}
 	}
-	if !g.O.NoAddProps && r.Chance(0.2) {
+	if !g.O.NoAddProps && r.Chance(g.pAddProps()) {
 		switch r.IntN(6) {
 		case 0:
 			s.AddProps = &Schema{Types: []string{"string"}}
@@ -445,6 +447,20 @@ func (g *Gen) Object(depth int, root bool) *Schema {
 		}
 	}
 	return s
+}
+
+func (g *Gen) pDefault() float64 {
+	if g.O.PDefault != 0 {
+		return g.O.PDefault
+	}
+	return 0.25
+}
+
+func (g *Gen) pAddProps() float64 {
+	if g.O.PAddProps != 0 {
+		return g.O.PAddProps
+	}
+	return 0.2
 }
 
 // MapObject makes an object schema without declared properties.
